@@ -12,7 +12,7 @@ REPO_SOURCES = ["src/Algorithms/GradientDescent/AbstractLineSearchOptimizer.cpp"
                 "src/Algorithms/GradientDescent/Rprop.cpp",
                 "src/Algorithms/GradientDescent/TrustRegionNewton.cpp",
                 "src/Core/Random.cpp"]
-LAKE_TARGETS = ["SharkVerif.Props.C10", "SharkVerif.Gen.LbfgsBox", "drv_c10"]
+LAKE_TARGETS = ["SharkVerif.Props.C10", "SharkVerif.Props.C10Deep", "SharkVerif.Gen.LbfgsBox", "SharkVerif.Gen.LineSearchSrc", "drv_c10"]
 
 TRUST = ("Lean 4.33 kernel; axioms at most propext/Classical.choice/Quot.sound (audited per run); hand-written model "
          "tied to the C++ by the correspondence harness (differential, generator-bounded); ")
@@ -491,6 +491,9 @@ def classify(ops, res):
         first_bad = res.diff_at
     saves_before = [o.split()[2] for o in ops[:(first_bad if first_bad is not None else len(ops)) + 1] if o.startswith("save")]
     otext = " ".join(res.oracle)
+    if tags == ["ls-wolfecubic-uninitialised-bracket"] and not res.crash:
+        return ("F-C10-16:wolfecubic-uninitialised-bracket",
+                f"wolfecubic reads its never-assigned bracket arrays when the bracketing loop runs out of its 25 tenfold expansions (objective decreasing without bound along the direction); ops {ops}")
     if opt == "trn" and "increased" in tags:
         return ("F10:trn-accepts-increase", f"TrustRegionNewton accepts a step that increases the objective (borderDistance sign); ops {ops}")
     # ---- known findings of the box-constrained L-BFGS direction; each key is tied to the harness' diagnosis of the
@@ -600,7 +603,8 @@ def load_corpus():
 def translate(ctx):
     a = ctx.translate("opt_fields.py")
     b = ctx.translate("lbfgs_box.py")
-    return a and b
+    c = ctx.translate("linesearch.py")
+    return a and b and c
 
 
 def build(ctx):
@@ -642,9 +646,10 @@ def run(ctx):
                     "hand-written model Model/GradOpt.lean, Model/Objectives.lean",
                     "ASan/UBSan runtime for the real code's memory safety (not a theorem)"]
     translate(ctx)
-    ctx.prove(["SharkVerif.Props.C10"])
+    PROPS = ["SharkVerif.Props.C10", "SharkVerif.Props.C10Deep", "SharkVerif.Lemmas.LineSearches", "SharkVerif.Gen.LineSearchSrc"]
+    ctx.prove(PROPS)
     if not ctx.quick:
-        ctx.leanchecker(["SharkVerif.Props.C10"])
+        ctx.leanchecker(PROPS)
     exe = build(ctx)
     drv = ctx.driver("drv_c10")
     if not exe or not drv:
